@@ -296,7 +296,7 @@ class EngineBase:
             raise Unsupported(f"{ref.ty.name} has no declared field {f}")
         fty = TRef.registry[owner].fields[f]
         arr = self.heap_array(self.st.heap, owner, f)
-        if not isinstance(v, SV) and hasattr(self, "coerce"):
+        if hasattr(self, "coerce") and (not isinstance(v, SV) or (isinstance(v.ty, TOpt) and not isinstance(fty, TOpt))):
             v = self.coerce(v, fty)
         self.st.heap[f"{owner}.{f}"] = z3.Store(arr, ref.t, lift(v, fty).t)
         if self.written_fields is not None:
